@@ -35,7 +35,28 @@ OK = 10
 
 
 @st.composite
+def st_blocked_head(draw):
+    """family: the second pair of a keep request that reuses one virtual qubit has to wait (the qubit is still allocated)
+    while a measure request of the same queue stands behind it; a request of another queue is issued later, its response
+    possibly already waiting"""
+    role = draw(st.sampled_from(["recv", "create"]))
+    remote, sock = draw(st.sampled_from([1, 2])), draw(st.sampled_from([0, 1]))
+    other = draw(st.sampled_from([(r_, s_) for r_ in (1, 2) for s_ in (0, 1) if (r_, s_) != (remote, sock)] + [(remote, sock)] * (1 if role == "create" else 0)))
+    xtp = draw(st.sampled_from(["K", "M"]))
+    reqs = [
+        {"role": role, "tp": "K", "n": 2, "remote": remote, "sock": sock, "ids": [0, 0], "reuse": True, "sub": 0, "wait": "all", "spare": 0},
+        {"role": "recv", "tp": xtp, "n": 1, "remote": other[0], "sock": other[1], "ids": [1] if xtp == "K" else [], "reuse": False, "sub": 0, "wait": draw(st.sampled_from(["all", "single"])), "spare": 0},
+        {"role": role, "tp": "M", "n": draw(st.integers(1, 2)), "remote": remote, "sock": sock, "ids": [], "reuse": False, "sub": 0, "wait": "all", "spare": 0},
+    ]
+    ops: List[Any] = [["req", 0]] + [["filler"]] * draw(st.integers(0, 2)) + [["req", 2]] + [["filler"]] * draw(st.integers(2, 6)) + [["req", 1]] + [["filler"]] * draw(st.integers(0, 3))
+    ops += [["waitpair", 0, 0], ["free", 0, 0], ["waitpair", 0, 1], ["wait", 2], ["wait", 1], ["ret", 0], ["ret", 1], ["ret", 2]]
+    return {"reqs": reqs, "subs": [ops], "schedule": draw(st.lists(st.integers(0, 5), min_size=4, max_size=40)), "purpose_offset": draw(st.sampled_from([0, 1])), "family": "blocked-head"}
+
+
+@st.composite
 def st_scenario(draw):
+    if draw(st.integers(0, 4)) == 0:
+        return draw(st_blocked_head())
     nsub = draw(st.integers(1, 3))
     nreq = draw(st.integers(1, 3))
     reqs = []
@@ -57,7 +78,9 @@ def st_scenario(draw):
         else:
             ids = []
         reqs.append({"role": role, "tp": tp, "n": n, "remote": remote, "sock": sock, "ids": ids, "reuse": reuse, "sub": draw(st.integers(0, nsub - 1)),
-                     "wait": draw(st.sampled_from(["all", "all", "single", "any"]))})
+                     "wait": draw(st.sampled_from(["all", "all", "single", "any"])),
+                     # a create request states its number of pairs itself: its result array may be longer than needed
+                     "spare": draw(st.sampled_from([0, 0, 0, OK, 2 * OK])) if role == "create" else 0})
     # at most 9 virtual qubits (unit module of 12)
     subs = []
     for s in range(nsub):
@@ -115,7 +138,7 @@ def build_text(scn, s) -> str:
                 lines.append(f"array {r['n']} @{addr(i, 'ids')}")
                 for j, v in enumerate(r["ids"]):
                     lines.append(f"store {v} @{addr(i, 'ids')}[{j}]")
-            lines.append(f"array {OK * r['n']} @{addr(i, 'res')}")
+            lines.append(f"array {OK * r['n'] + r.get('spare', 0)} @{addr(i, 'res')}")
             qa = f"{addr(i, 'ids')}" if r["tp"] == "K" else "C0"
             if r["role"] == "create":
                 lines.append(f"array 20 @{addr(i, 'args')}")
@@ -398,6 +421,10 @@ def shard(ctx: Ctx) -> None:
             labels.append("outstanding>=2")
         if scn.get("bystander"):
             labels.append("second-controller-with-waiting-responses")
+        if scn.get("family"):
+            labels.append("family:" + scn["family"])
+        if any(r.get("spare") for r in scn["reqs"]):
+            labels.append("create-with-longer-result-array")
         if any(r["reuse"] for r in scn["reqs"]):
             labels.append("virtual-id-reuse")
         keys = [(r["remote"], r["sock"], r["role"]) for r in scn["reqs"]]
